@@ -58,6 +58,17 @@ pub fn corpus() -> Vec<(&'static str, IncCfg, Vec<Op>)> {
         flow(&c, 4, 0, 501_000, Some(9)),
         Op::NewEpoch, Op::Snapshot, Op::Claim { sender: 1 }, Op::Claim { sender: 2 },
     ]));
+    // (vi) a flow that starts after several weight changes of an address that never claimed: the claim loop skipped the epochs
+    // before the flow's start without reading the history, and used the address's EARLIEST weight (here: of a closed position)
+    let c = cfg_base(3, 0);
+    v.push(("witness_stale_weight_before_flow_start", c.clone(), vec![
+        open_pos(&c, 1, 1000, 86_400), open_pos(&c, 2, 1000, 86_400),
+        Op::NewEpoch, Op::Snapshot, Op::NewEpoch, Op::Snapshot,
+        Op::ClosePosition { sender: 1, dur: 86_400, now: START_TIME + 2 * 86_400 },
+        Op::NewEpoch, Op::Snapshot, Op::NewEpoch, Op::Snapshot,
+        flow(&c, 3, 1, 1_000_000, Some(15)),
+        Op::NewEpoch, Op::Snapshot, Op::Claim { sender: 1 }, Op::Claim { sender: 2 },
+    ]));
     // a position opened and claimed in the same epoch keeps its weight (the code as found lost it)
     let c = cfg_base(10, 1);
     v.push(("open_then_claim_same_epoch", c.clone(), vec![
@@ -114,6 +125,45 @@ pub fn monitor_c13(m: &mut Mon, w: &IncWorld, pre: &Snap, op: &Op, ok: bool, pos
                     Some(Ok(q)) => m.check(*q == paid, &format!("claim_eq_query: the rewards query reported {:?} immediately before the claim paid {:?}", q, paid)),
                     _ => m.check(false, "claim_eq_query: the rewards query failed although the claim succeeded"),
                 }
+            }
+            // the claim pays, flow by flow and epoch by epoch, emission * (weight the history holds for that epoch / snapshot)
+            let h = pre.st.awh.get(&n).cloned().unwrap_or_default();
+            for f in &pre.st.flows {
+                if f.start > pre.epoch { continue; }
+                let (lat_amt, lat_end) = f.latest();
+                if pre.epoch > lat_end && f.claimed == lat_amt { continue; }
+                let g = match post.flow(f.id) { Some(g) => g, None => continue };
+                let first = match last { Some(l) => l + 1, None => { let k0 = h.first().map(|x| x.0).unwrap_or(0); if f.start > k0 { k0 } else { f.start } } };
+                let mut expected: u128 = 0;
+                let mut count = 0u64;
+                let mut e = first;
+                // the emission of an epoch as the claim derives it from the flow's emitted_tokens ledger, replayed from the pre-state
+                let mut emitted: std::collections::BTreeMap<u64, u128> = f.emitted.iter().cloned().collect();
+                let mut bad_div = false;
+                while e <= pre.epoch {
+                    count += 1;
+                    if count > 100 { break; }
+                    if e >= f.start {
+                        if e >= lat_end { break; }
+                        let prev = if emitted.is_empty() { 0 } else { emitted.get(&e.saturating_sub(1)).copied().unwrap_or(0) };
+                        let at = f.hist.iter().filter(|x| x.0 <= e).last();
+                        let (amt_e, end_e) = match at { Some((_, a, x)) => (*a, *x), None => (f.amount, f.end) };
+                        if end_e <= e { bad_div = true; break; }
+                        let emission = amt_e.saturating_sub(prev) / (end_e - e) as u128;
+                        emitted.entry(e).or_insert(emission + prev);
+                        let wgt = weight_at(&h, e);
+                        let gs = pre.st.snap.get(&e).copied().unwrap_or(0);
+                        if gs > 0 && wgt > 0 {
+                            let share = cosmwasm_std::Uint256::from(wgt) * cosmwasm_std::Uint256::from(DEC) / cosmwasm_std::Uint256::from(gs);
+                            let r = cosmwasm_std::Uint256::from(emission) * share / cosmwasm_std::Uint256::from(DEC);
+                            expected += Uint128::try_from(r).map(|x| x.u128()).unwrap_or(u128::MAX / 4);
+                        }
+                    }
+                    e += 1;
+                }
+                if bad_div { continue; }
+                m.check(g.claimed - f.claimed == expected,
+                    &format!("claim_uses_epoch_weight: flow {} paid {} but emission * (weight of each epoch / snapshot) gives {}", f.id, g.claimed - f.claimed, expected));
             }
             // a claim of exactly one epoch pays at most that epoch's emission, flow by flow
             if last == Some(pre.epoch.wrapping_sub(1)) {
